@@ -52,7 +52,7 @@ def check(cx):
         f_int = impl_method(cx.facts, HI, adt(path), 'integral')
         if f_ind is None or f_int is None:
             continue
-        inst = f_ind['path']
+        inst = inst_of(f_ind)
         file, line = fn_loc(f_ind)
         cs = coeff_syms('self', deg)
 
@@ -90,7 +90,7 @@ def check(cx):
             return a
         a_ind = guarded(rep, 'coef', inst, f_ind, go_ind)
 
-        inst2 = f_int['path']
+        inst2 = inst_of(f_int)
         file2, line2 = fn_loc(f_int)
 
         def go_int():
@@ -185,7 +185,7 @@ def check(cx):
     f_si = impl_method(cx.facts, HI, segT, 'indefinite')
     f_sg = impl_method(cx.facts, HI, segT, 'integral')
     if f_si is not None:
-        inst = f_si['path']
+        inst = inst_of(f_si)
         file, line = fn_loc(f_si)
 
         def go_si():
@@ -198,7 +198,7 @@ def check(cx):
                    msg='Segment::indefinite is not {end: self.end, poly: self.poly.indefinite()}: %s' % (a.it.abstract(a.state, a.ret),))
         guarded(rep, 'seg', inst, f_si, go_si)
     if f_sg is not None:
-        inst = f_sg['path']
+        inst = inst_of(f_sg)
         file, line = fn_loc(f_sg)
 
         def go_sg():
